@@ -5,30 +5,42 @@ mod numl;
 mod optl;
 mod parsel;
 
-use std::io::{BufRead, Write};
+use std::io::Write;
 use std::panic;
 
 fn main() {
     panic::set_hook(Box::new(|_| {}));
     let args: Vec<String> = std::env::args().collect();
     if args.len() > 2 && args[1] == "--child" {
+        // optimize()/build_source() may read stdin or exit the process: they run in a child of their own
+        if args[2] == "optstate" || args[2] == "compile" {
+            let toks: Vec<&str> = args[3..].iter().map(|s| s.as_str()).collect();
+            let r = if args[2] == "optstate" { optl::handle_state(&toks) } else { optl::handle_compile(&toks) };
+            println!("R {}", r);
+            return;
+        }
         execl::child(&args[2..]);
         return;
     }
-    let stdin = std::io::stdin();
+    // read every case first: library code under test may itself touch the process's stdin
+    let mut all = String::new();
+    {
+        use std::io::Read;
+        std::io::stdin().lock().read_to_string(&mut all).unwrap();
+    }
     let stdout = std::io::stdout();
     let mut out = std::io::BufWriter::new(stdout.lock());
-    for line in stdin.lock().lines() {
-        let line = line.unwrap();
+    for line in all.lines() {
+        let line = line.to_string();
         let toks: Vec<&str> = line.split(' ').filter(|s| !s.is_empty()).collect();
         let res = panic::catch_unwind(|| match toks.first() {
             Some(&"num") => numl::handle(&toks[1..]),
             Some(&"parse") => parsel::handle(&toks[1..]),
             Some(&"reparse") => parsel::handle_reparse(&toks[1..]),
-            Some(&"compile") => optl::handle_compile(&toks[1..]),
+            Some(&"compile") => execl::in_child("compile", &toks[1..]),
             Some(&"dbgstates") => execl::handle_dbgstates(&toks[1..]),
             Some(&"opt") => match toks.get(1) {
-                Some(&"state") => optl::handle_state(&toks[2..]),
+                Some(&"state") => execl::in_child("optstate", &toks[2..]),
                 _ => "bad:mode".to_string(),
             },
             Some(&"exec") => match toks.get(1) {
